@@ -134,3 +134,36 @@ def dials : List DOp → List Conn
   | .hs _ :: rest => dials rest
 
 end Election
+
+/-! ## Connections that go away for reasons outside the election (round 4)
+
+`FOp.failA a` / `FOp.failB b`: node A's / node B's end of a connection closes at ANY time for a
+reason that is not an election result — the transport fails, the peer process is gone, or the
+session gives up by itself (`node_session.rs`: the pre-authentication `CheckSession` failed or
+timed out ⇒ `Close`; the post-authentication `CheckSession` answered with an error ⇒
+`myself.stop("session_election_lost")`). The other node notices through `seeA` / `seeB`.
+Together with late dials (`dial`) and the election steps (`hs`). -/
+
+namespace Election
+
+inductive FOp
+  | dial (c : Conn)
+  | hs (op : HOp)
+  | failA (a : Nat)
+  | failB (b : Nat)
+  deriving Repr, DecidableEq
+
+def fStep (o : Ordering) (w : List Link) : FOp → List Link
+  | .dial c => w ++ [{ c := c }]
+  | .hs op => hsStep o w op
+  | .failA a => w.map (fun l => if l.c.idA == a then { l with openA := false } else l)
+  | .failB b => w.map (fun l => if l.c.idB == b then { l with openB := false } else l)
+
+def fRun (o : Ordering) (ops : List FOp) : List Link := ops.foldl (fStep o) []
+
+def fDials : List FOp → List Conn
+  | [] => []
+  | .dial c :: rest => c :: fDials rest
+  | _ :: rest => fDials rest
+
+end Election
